@@ -17,7 +17,7 @@ NOTES = {
  'C09': 'partial: the daemon model carries its buffers as byte lists with liblsd\'s size and overwrite rules; the ring itself (cbuf.c at index level) is a separate model proved to refine that queue and tied to the real cbuf.c by its own layer, not substituted into the daemon model; serial lines: the tty line discipline is a model compared with the running kernel on a pty',
  'C11': 'partial: client-id wrap at INT_MAX is outside the unbounded counter of the model (known finding F17, replayed on the real code by the id-wrap layer)',
  'C15': 'partial: the model never drops client output (the property carries the 1 MiB proviso); cleanliness of data-carrying lines needs a CR/LF-free configuration',
- 'C16': 'partial: memory safety of the remaining C is observed under ASan, not proved',
+ 'C16': 'partial: memory safety of the remaining C is observed under ASan, not proved; the layer libpm-greeting (server lines of CP_LINEMAX bytes and more in the greeting) runs the implementation alone under ASan with the exit-status predicates - a boundary test, not a comparison with the model, which is too slow on 100 KiB lines',
  'C17': 'acceptance by the parser and regcomp is observed (the translator is the real parser); the static predicate is decided in the kernel for every shipped statement and proved sound for the interpreter model (specOK_sound)',
  'C18': 'partial: the flex/bison automata, malloc and regcomp are not modelled; their behaviour on arbitrary input is observed under sanitizers',
  'C19': 'partial: the command parser and setplugs of redfishpower are not modelled yet (observed through raw lines)',
